@@ -113,6 +113,10 @@ def _wchoice(r, pairs):
     return pairs[-1][0]
 
 
+class InjectedCallableError(RuntimeError):
+    """Raised by a user-supplied callable at a seeded invocation (fault kind callable_raises)."""
+
+
 class TrackWorld(World):
     NAME = "track"
     PROPS = ("C01", "C04", "C17")
@@ -154,7 +158,7 @@ class TrackWorld(World):
                 "with_features": r.random() < (0.3 if focus == "C04" else 0.6),
                 "fork_rate": r.choice([0, 0.02, 0.08]), "names": list(NAMES[: r.choice([2, 3, 4, 4])]),
                 "sorted_tracks": 0.9 if focus == "C17" else r.choice([0.2, 0.6, 0.9]),
-                "renew": r.choice([0.01, 0.05, 0.15])}
+                "renew": r.choice([0.01, 0.05, 0.15]), "callable_faults": r.choice([0, 0, 0.15, 0.4])}
 
     @classmethod
     def deepen(cls, cfg, r):
@@ -318,12 +322,18 @@ class TrackWorld(World):
     def _g_setitem_delete(self, r, m):
         return self._g_remove(r, m)
 
+    def _callable_fault(self, r, st):
+        if r.random() < self.cfg.get("callable_faults", 0):
+            st["fault"] = {"kind": "callable_raises", "at": r.choice([1, 1, 2, 3, 5, 9, 17, 33])}
+        return st
+
     def _g_setitem_func(self, r, m):
-        return {"name": self._pick_name(r, m), "func": r.choice(["affine", "next_x"]), "base": self._uval()}
+        return self._callable_fault(r, {"name": self._pick_name(r, m), "func": r.choice(["affine", "next_x"]),
+                                        "base": self._uval()})
 
     def _g_add_af(self, r, m):
-        return {"name": self._pick_name(r, m), "func": r.choice(["affine", "next_x"]), "base": self._uval(),
-                "byname": r.random() < 0.3}
+        return self._callable_fault(r, {"name": self._pick_name(r, m), "func": r.choice(["affine", "next_x"]),
+                                        "base": self._uval(), "byname": r.random() < 0.3})
 
     def _g_setobs(self, r, m):
         return {"name": self._pick_name(r, m, True), "i": r.randrange(64), "value": self._uval(),
@@ -362,8 +372,8 @@ class TrackWorld(World):
         return st
 
     def _g_apply(self, r, m):
-        return {"in1": self._pick_input(r, m), "f": r.choice(["half", "plus7", "neg"]),
-                "out": self._pick_name(r, m)}
+        return self._callable_fault(r, {"in1": self._pick_input(r, m), "f": r.choice(["half", "plus7", "neg"]),
+                                        "out": self._pick_name(r, m)})
 
     def _g_aggregate(self, r, m):
         return {"opr": r.choice(AGG), "in1": self._pick_input(r, m)}
@@ -826,6 +836,53 @@ class TrackWorld(World):
         self._setcol(m, st["name"], self._expand(v, n))
         self._check_all("C01", "setitem")
 
+    def _faulty(self, st, f):
+        """User-supplied callable that raises at its k-th invocation (armed fault
+        `callable_raises`): the in-memory counterpart of an I/O error at the k-th write."""
+        fault = st.get("fault")
+        if not fault:
+            return f
+        self.stats["fault_armed:callable_raises"] += 1
+        state = {"n": 0, "fired": False}
+        self._fault_state = state
+
+        def g(*a):
+            state["n"] += 1
+            if state["n"] == fault["at"] and not state["fired"]:
+                state["fired"] = True
+                raise InjectedCallableError("user callable failed at invocation %d" % fault["at"])
+            return f(*a)
+        g.__name__ = getattr(f, "__name__", "g")
+        return g
+
+    def _after_callable_fault(self, st, t, m, out, exc, where):
+        """Outcome of a call whose callable raised: the exception must be the injected one (or
+        the call absorbed it); the output column is adopted, everything else is judged."""
+        state = getattr(self, "_fault_state", None) or {"fired": False}
+        self._fault_state = None
+        if not state["fired"]:
+            self.stats["fault_not_reached:callable_raises"] += 1
+            return False
+        self.stats["fault_fired:callable_raises"] += 1
+        if exc is not None and not isinstance(exc, InjectedCallableError):
+            self._unexpected("C01", exc, where + " (after the user callable raised)")
+            return True
+        if exc is None:
+            self.probe("fault_swallowed_by_call")
+        listed = t.getListAnalyticalFeatures()
+        if out in listed:
+            col, e2 = self.call(t.getAnalyticalFeature, out)
+            if e2 is not None or len(col) != len(m["obs"]):
+                self.fail("C01", "table.unreadable", where + ": after the user callable raised, %r cannot be read "
+                          "back as one value per observation" % out, len(m["obs"]),
+                          repr(e2) if e2 is not None else len(col))
+                return True
+            self._setcol(m, out, list(col))
+            m["fresh"].pop(out, None)
+        self.probe("user_callable_raised_inside_a_feature_operation")
+        self._check_all("C01", where + " (the user callable raised: the table must stay aligned, nothing else may change)")
+        return True
+
     def _func(self, st, m):
         base = st["base"]
         if st["func"] == "affine":
@@ -840,7 +897,9 @@ class TrackWorld(World):
         if len(m["obs"]) == 0 or st["name"] in RESERVED:
             raise Skip()
         f, exp = self._func(st, m)
-        _, exc = self.call(t.__setitem__, st["name"], f)
+        _, exc = self.call(t.__setitem__, st["name"], self._faulty(st, f))
+        if st.get("fault") and self._after_callable_fault(st, t, m, st["name"], exc, "track[name] = function"):
+            return "fault"
         if exc is not None:
             return self._unexpected("C01", exc, "track[name] = function")
         self._setcol(m, st["name"], exp)
@@ -853,9 +912,11 @@ class TrackWorld(World):
         f, exp = self._func(st, m)
         if st.get("byname"):
             f.__name__ = st["name"]           # documented default: the feature is named after the function
-            rv, exc = self.call(t.addAnalyticalFeature, f)
+            rv, exc = self.call(t.addAnalyticalFeature, self._faulty(st, f))
         else:
-            rv, exc = self.call(t.addAnalyticalFeature, f, st["name"])
+            rv, exc = self.call(t.addAnalyticalFeature, self._faulty(st, f), st["name"])
+        if st.get("fault") and self._after_callable_fault(st, t, m, st["name"], exc, "addAnalyticalFeature"):
+            return "fault"
         if exc is not None:
             return self._unexpected("C01", exc, "addAnalyticalFeature")
         self._setcol(m, st["name"], exp)
@@ -1024,7 +1085,9 @@ class TrackWorld(World):
             raise Skip()
         f = {"half": lambda v: v * 0.5, "plus7": lambda v: v + 7, "neg": lambda v: -v}[st["f"]]
         exp = [f(v) for v in self._col(m, st["in1"])]
-        rv, exc = self.call(t.operate, Operator.APPLY, st["in1"], f, st["out"])
+        rv, exc = self.call(t.operate, Operator.APPLY, st["in1"], self._faulty(st, f), st["out"])
+        if st.get("fault") and self._after_callable_fault(st, t, m, st["out"], exc, "operate(Operator.APPLY)"):
+            return "fault"
         if exc is not None:
             return self._unexpected("C01", exc, "operate(Operator.APPLY)")
         self._setcol(m, st["out"], exp)
